@@ -32,7 +32,25 @@ def gen_dist(rng):
             break
     alph = [list(range(s)) for s in sizes]
     full = [list(o) for o in itertools.product(*alph)]
-    pattern = rng.choice(['block', 'block', 'functional', 'full', 'random', 'copy'])
+    pattern = rng.choice(['block', 'block', 'functional', 'full', 'random', 'copy', 'classes', 'classes'])
+    if pattern == 'classes':
+        # rows p(.|x0) drawn from one or two decimal templates and scaled by decimal row weights: rows of one class are equal in
+        # exact arithmetic (up to ~1e-16) but their float conditionals p(x,y) * (1/p(x)) are rounded differently
+        rest = [list(o) for o in itertools.product(*alph[1:])]
+        tmpl = []
+        for _ in range(2):
+            w = [rng.choice([1, 2, 3, 7, 9]) for _ in rest]
+            tmpl.append([x / 10.0 / (sum(w) / 10.0) for x in w])
+        if max(abs(a - b) for a, b in zip(*tmpl)) < 0.05:
+            tmpl[1] = list(reversed(tmpl[0])) if max(abs(a - b) for a, b in zip(tmpl[0], reversed(tmpl[0]))) > 0.05 else tmpl[0]
+        rw = rng.choice([[0.2, 0.8], [0.3, 0.7], [0.1, 0.9], [0.2, 0.3, 0.5], [0.1, 0.3, 0.6], [0.5, 0.2, 0.3]])
+        rw = (rw * 2)[:sizes[0]]
+        rw = [x / sum(rw) for x in rw]
+        cls = [rng.randint(0, 1) for _ in range(sizes[0])] if rng.random() < 0.6 else [0] * sizes[0]
+        sup = [[x] + r for x in range(sizes[0]) for r in rest]
+        ps = [rw[x] * tmpl[cls[x]][j] for x in range(sizes[0]) for j in range(len(rest))]
+        rep = rng.choice(['sparse', 'sparse', 'dense'])
+        return {'n': n, 'klass': klass, 'alph': alph, 'outs': sup, 'ps': ps, 'pruned': False, 'pattern': pattern, 'rep': rep}
     if pattern == 'block':
         sup = [o for o in full if (o[0] * 2 < sizes[0]) == (o[1] * 2 < sizes[1])]
     elif pattern == 'functional':
